@@ -1109,6 +1109,24 @@ PROPS = {
             "C18_native_args_t4": [],
             "C18_conversion_error_t4": [],
             "C18_reentry_balanced_partial": [],
+            "C18_native_wrapper_generic": [],
+            "C18_native_args_menu": [],
+            "C18_conversion_error_menu": [],
+            "C18_native_args_menu_simple": [],
+            "C18_native_args_cat2": [],
+            "C18_conversion_error_cat2": [],
+            "C18_native_args_tab1": [],
+            "C18_native_args_log1": [],
+            "C18_reentrant_args": [],
+            "C18_reentrant_args_call0": [],
+            "C18_run_function_enters": [],
+            "C18_registry_history": [],
+            "C18_registry_answers": [],
+            "C18_std_names_rejected": [],
+            "C18_std_natives_kept": [],
+            "C18_std_native_shadowed_by_collision": [],
+            "C18_registration_replaces": [],
+            "C18_menu_registry_is_find_native": [],
         },
         n_quick=200, n_thorough=2000,
         gates=["feature.native", "feature.native_arity4", "feature.native_value_call", "feature.reentry",
